@@ -332,3 +332,13 @@ func TestKnown_numberLexical(t *testing.T) {
 	wantEval(t, d1, "", `number('inf')`, math.NaN())
 	wantEval(t, d1, "", `number('0x10')`, math.NaN())
 }
+
+func TestW_substringRoundHalf(t *testing.T) {
+	// XPath round() takes a tie towards positive infinity: round(-2.5) = -2
+	wantEval(t, d1, "", `substring('12345', -2.5, 5)`, "12")
+	wantEval(t, d1, "", `substring('12345', -0.5, 2)`, "1")
+	wantEval(t, d1, "", `substring('12345', 1.5, 2.6)`, "234")
+	wantEval(t, d1, "", `substring('12345', 0, 3)`, "12")
+	wantEval(t, d1, "", `substring('12345', 2, -0.5)`, "")
+	wantEval(t, d1, "", `substring('12345', 2.5)`, "345")
+}
